@@ -51,7 +51,18 @@ META = {
                   "re-derived from the face / cell list in the model and compared through the matrices; floating-point "
                   "round-off is outside the theorems (they are over fields). The connection-valued (complex transport) variants "
                   "of the Laplacians are outside C08's sentence and not modelled. Stdlib real-number axioms only for the "
-                  "theorems stated over R. Model conventions that differ from Python outside the property's quantifier: "
+                  "theorems stated over R. Deliberately left free (oracle, driver and kernel batches do not constrain them): the "
+                  "sparse format, dtype and index types of the returned matrices, whether zero coefficients are stored; which "
+                  "direct orthonormal tangent basis a connection picks; the VALUE of the uniform weight (only: one constant per "
+                  "(triangle, edge) incidence), the values of cotan_edge_diagonal "
+                  "and of the dual / edge / volume / tetrahedral Laplacians beyond symmetry and zero row sums (the kernel batches "
+                  "still compare them with the model: a change there is `unproved`, never a concrete violation); exception class "
+                  "and message of any refusal; whether calls the text does not speak about are refused or answered (flags given "
+                  "as int / numpy.bool_, numpy weight types, explicit scipy format names, meshes outside the quantifier: "
+                  "degenerate geometry, vertices or stored edges of no face, sort_neighborhoods switched off; an answer, if "
+                  "given, must satisfy the property); new attributes, warnings, log lines; equivalent recomputation of a cached "
+                  "attribute (stored numeric data is compared with 1e-9 (1 + |x|)); last-bit differences (house tolerance "
+                  "everywhere, also against exact rationals). Model conventions that differ from Python outside the property's quantifier: "
                   "vertex indices out of range read the origin (Python raises / wraps), and coefficients are SUMMED where "
                   "the code assigns into a lil matrix - the two agree for duplicate-free, loop-free edge lists and faces "
                   "with distinct vertices, which the kernel checks on every case (edges_ok); the translator refuses an "
@@ -506,6 +517,24 @@ def finish_case(rng, c, sequence=None):
     return c
 
 
+def outside_quantifier(case):
+    """meshes / settings the property's quantifier does not cover (degenerate geometry, vertices or stored edges of no face,
+    a library switch turned off): there a refusal is as acceptable as an answer that satisfies the property"""
+    if case.get("degenerate") or case.get("sort_neighborhoods") is False:
+        return True
+    if case["kind"] == "surface":
+        if case.get("E"):
+            return True
+        if len({x for f in case["F"] for x in f}) < len(case["V"]):
+            return True
+    return False
+
+
+def tolerated(case, o):
+    """a refusal the property text allows"""
+    return o is not None and "error" in o and (o.get("free_form") or outside_quantifier(case))
+
+
 def results_of(case, obs):
     """[(operator name, what the implementation returned)] in call order"""
     if "steps" in obs:
@@ -591,7 +620,7 @@ def out_terms(case, obs, keep, finite_only=False):
     for nm, o in results_of(case, obs):
         if not keep(nm):
             continue
-        if o is not None and "raised" in o:
+        if o is not None and ("raised" in o or tolerated(case, o)):
             continue      # a refused call returns no matrix
         if o is None or "error" in o:
             return None
@@ -688,7 +717,7 @@ def same_result(a, b):
         return True
     if a["shape"] != b["shape"] or bool(a.get("complex")) != bool(b.get("complex")):
         return False
-    return close(dense(a, a.get("complex")), dense(b, b.get("complex")), 1e-12)
+    return close(dense(a, a.get("complex")), dense(b, b.get("complex")), 1e-9)
 
 
 def oracle(case, obs):
@@ -707,14 +736,14 @@ def oracle(case, obs):
     for k, st in enumerate(obs["steps"]):
         nm = st["op"]
         if nm.startswith("bad:"):
-            if "error" in st or not st.get("raised"):
-                bad.append(("seq/bad-call-accepted", "call %d (%s) was not refused with an exception (%s)" % (k, nm, st.get("error"))))
             if st.get("mutated"):
                 bad.append(("seq/mutates-mesh", "the refused call %d (%s) changed data stored on the mesh: %s" % (k, nm, ", ".join(st["mutated"]))))
             continue
         if st.get("mutated"):
             bad.append(("seq/mutates-mesh", "call %d (%s) changed data already stored on the mesh: %s" % (k, nm, ", ".join(st["mutated"]))))
-        if nm in first and not same_result(first[nm], st):
+        if "error" in st and tolerated(case, st):
+            continue
+        if nm in first and not nm.startswith("grad") and not same_result(first[nm], st):
             bad.append(("seq/changed-on-repeat", "call %d (%s) returns a different matrix than the first call of %s on the same mesh" % (k, nm, nm)))
         first.setdefault(nm, st)
         last[nm] = st
@@ -750,7 +779,8 @@ def oracle_outs_(case, obs):
         if o is None:
             return None
         if "error" in o:
-            bad.append((name + "/error", "%s raised %s" % (name, o["error"])))
+            if not tolerated(case, o):
+                bad.append((name + "/error", "%s raised %s" % (name, o["error"])))
             return None
         if any(x_ == "nan" for e_ in o["ent"] for x_ in e_):
             bad.append((name + "/nan", "%s has NaN entries" % name))
@@ -777,20 +807,15 @@ def oracle_outs_(case, obs):
         return bad
     eid = {k: i for i, k in enumerate(keys)}
 
-    def stored(name, want, what):
+    def single(name):
         o = outs.get(name)
-        if o is not None and "error" not in o and "nnz" in o and o["nnz"] != want:
-            bad.append((name + "/nnz", "%s stores %d coefficients (%d of them zero), %s is %d"
-                        % (name, o["nnz"], o.get("stored_zeros", 0), what, want)))
+        if o is not None and "error" not in o and o.get("dups"):
+            bad.append((name + "/duplicates", "%s stores %d coefficients on positions that already carry one (more than one entry per incidence)"
+                        % (name, o["dups"])))
 
-    # exactly one stored coefficient per incidence
-    for nm in ("adj:one", "adj:length", "adj:custom"):
-        stored(nm, 2 * m, "2 x |E|")
-    for nm in ("v2e:0", "v2e:1"):
-        stored(nm, 2 * m, "2 x |E|")
-    stored("glap", n + 2 * m, "|V| + 2|E|")
-    if case["kind"] == "surface":
-        stored("v2f", 3 * len(case["F"]), "3 x |F|")
+    # exactly one stored coefficient per incidence (whether zero weights are stored or dropped is free)
+    for nm in ("adj:one", "adj:length", "adj:custom", "v2e:0", "v2e:1", "v2f"):
+        single(nm)
     # ---- graph laplacian / adjacency / vertex-edge incidence  (all mesh kinds)
     A1 = get("adj:one", (n, n))
     if A1 is not None:
@@ -854,49 +879,23 @@ def oracle_outs_(case, obs):
             bad.append(("lap:1/stiffness", "cotan laplacian differs from the independently assembled P1 stiffness matrix"))
         L0 = get("lap:0", (n, n))
         sym_rowsum("lap:0", L0)
+        # the uniform option: ONE weight for every (triangle, edge) pair, whatever the geometry; its value is not fixed
         if L0 is not None:
             W = np.zeros((n, n))
             for (a, b, c) in F:
                 for i, j in ((a, b), (b, c), (c, a)):
-                    W[i, j] -= 0.5
-                    W[j, i] -= 0.5
-                    W[i, i] += 0.5
-                    W[j, j] += 0.5
-            if not close(L0, W):
-                bad.append(("lap:0/value", "uniform laplacian is not 1/2 per incident triangle edge"))
+                    W[i, j] -= 1
+                    W[j, i] -= 1
+                    W[i, i] += 1
+                    W[j, j] += 1
+            nz = np.argwhere(W != 0)
+            if len(nz):
+                cst = L0[tuple(nz[0])] / W[tuple(nz[0])]
+                if not (np.isfinite(cst) and cst != 0 and close(L0, cst * W)):
+                    bad.append(("lap:0/uniform", "laplacian(cotan=False) is not one constant weight per (triangle, edge) incidence"))
         for nm in ("laptri:1", "laptri:0", "lapedges:1", "lapedges:0"):
             sym_rowsum(nm, get(nm, (nf, nf) if nm.startswith("laptri") else (m, m)))
-        LT0 = get("laptri:0", (nf, nf))
-        if LT0 is not None:
-            he = {}
-            for t, f in enumerate(F):
-                for k in range(3):
-                    he[(f[k], f[(k + 1) % 3])] = t
-            W = np.zeros((nf, nf))
-            for (a, b), t in he.items():
-                if (b, a) in he and a < b:
-                    s = he[(b, a)]
-                    W[t, t] += 1
-                    W[s, s] += 1
-                    W[t, s] -= 1
-                    W[s, t] -= 1
-            if not close(LT0, W):
-                bad.append(("laptri:0/value", "uniform dual laplacian is not degree - adjacency of the dual graph"))
-        # cotan edge diagonal: sum of the cotangents opposite to the edge (documented), its inverse with the documented clamp
-        cotsum = np.zeros(m)
-        for (a, b, c) in F:
-            for (i, j, k) in ((a, b, c), (b, c, a), (c, a, b)):      # edge (i, j), opposite vertex k
-                u, w = V[i] - V[k], V[j] - V[k]
-                cotsum[eid[(min(i, j), max(i, j))]] += np.float64(np.dot(u, w)) / np.float64(np.linalg.norm(np.cross(u, w)))
-        C0 = get("ced:0", (m, m))
-        if C0 is not None and not close(C0, np.diag(cotsum)):
-            bad.append(("ced:0/value", "cotan_edge_diagonal(inverse=False) is not the sum of the opposite cotangents"))
-        C1 = get("ced:1", (m, m))
-        if C1 is not None and np.all(np.abs(np.abs(cotsum) - 1e-8) > 1e-9):
-            with np.errstate(all="ignore"):
-                want = np.where(np.abs(cotsum) < 1e-8, 1e8, 1 / cotsum)
-            if not close(C1, np.diag(want)):
-                bad.append(("ced:1/value", "cotan_edge_diagonal(inverse=True) is not 1/(sum of the opposite cotangents) (1e8 when it vanishes)"))
+        # (values of the dual / edge Laplacians and of cotan_edge_diagonal are not fixed by the property)
         # gradient
         for conn in ("conn", "flat"):
             o = outs.get("gradc:" + conn)
@@ -966,12 +965,15 @@ def oracle_outs_(case, obs):
                         bad.append((nm + "/positive", "%s has a non-positive entry on a vertex of a face" % nm))
         Mf = get("massf:0", (nf, nf))
         if Mf is not None:
-            if not close(Mf, np.diag(area)):
-                bad.append(("massf/value", "area_weight_matrix_faces is not diag(face areas)"))
-            if np.any(~(np.diag(Mf) > 0)):
+            df = np.diag(Mf)
+            if not close(Mf, np.diag(df)):
+                bad.append(("massf/diagonal", "area_weight_matrix_faces is not diagonal"))
+            if not close(df.sum(), tot):
+                bad.append(("massf/total", "area_weight_matrix_faces sums to %r, total area is %r" % (df.sum(), tot)))
+            if np.any(~(df > 0)):
                 bad.append(("massf/positive", "area_weight_matrix_faces has a non-positive entry"))
             Mi = get("massf:1", (nf, nf))
-            if Mi is not None and not close(Mi, np.diag(1 / area)):
+            if Mi is not None and not close(Mi, np.diag(1 / df)):
                 bad.append(("massf:1/entrywise", "area_weight_matrix_faces(inverse) is not the entrywise inverse"))
         Me = get("masse:0", (m, m))
         if Me is not None:
@@ -1001,15 +1003,6 @@ def oracle_outs_(case, obs):
         sym_rowsum("vollap", get("vollap", (n, n)))
         TL = get("tetlap", (nc, nc))
         sym_rowsum("tetlap", TL)
-        if TL is not None:
-            W = np.zeros((nc, nc))
-            for i in range(nc):
-                for j in range(nc):
-                    if i != j and len(set(C[i]) & set(C[j])) == 3:
-                        W[i, j] -= 1
-                        W[i, i] += 1
-            if not close(TL, W):
-                bad.append(("tetlap/value", "laplacian_tetrahedra is not degree - adjacency of the dual graph"))
         vol = np.array([abs(np.linalg.det(np.array([V[a] - V[d], V[b] - V[d], V[c] - V[d]]))) / 6 for a, b, c, d in C])
         tot = float(vol.sum())
         Mv = get("massvv:0,0", (n, n))
@@ -1029,13 +1022,16 @@ def oracle_outs_(case, obs):
                     bad.append((nm + "/positive", "%s has a non-positive entry" % nm))
         Mc = get("massvc:0,0", (nc, nc))
         if Mc is not None:
-            if not close(Mc, np.diag(vol)):
-                bad.append(("massvc/value", "volume_weight_matrix_cells is not diag(cell volumes)"))
-            if np.any(~(np.diag(Mc) > 0)):
+            dc = np.diag(Mc)
+            if not close(Mc, np.diag(dc)):
+                bad.append(("massvc/diagonal", "volume_weight_matrix_cells is not diagonal"))
+            if not close(dc.sum(), tot):
+                bad.append(("massvc/total", "volume_weight_matrix_cells sums to %r, total volume is %r" % (dc.sum(), tot)))
+            if np.any(~(dc > 0)):
                 bad.append(("massvc/positive", "volume_weight_matrix_cells has a non-positive entry"))
             for nm, fn in (("massvc:1,0", lambda x: 1 / x), ("massvc:0,1", np.sqrt), ("massvc:1,1", lambda x: 1 / np.sqrt(x))):
                 Mo = get(nm, (nc, nc))
-                if Mo is not None and not close(Mo, np.diag(fn(vol))):
+                if Mo is not None and not close(Mo, np.diag(fn(dc))):
                     bad.append((nm + "/entrywise", "%s is not the entrywise transform of the cell mass matrix" % nm))
                 if Mo is not None and np.any(~(np.diag(Mo) > 0)):
                     bad.append((nm + "/positive", "%s has a non-positive entry" % nm))
@@ -1224,6 +1220,8 @@ def run(ctx):
             if t is None:
                 why = []
                 for nm, r_ in results_of(c, o):
+                    if r_ is not None and tolerated(c, r_):
+                        continue
                     if r_ is None or "error" in r_:
                         why.append("%s: %s" % (nm, "no result" if r_ is None else r_["error"]))
                     elif any(x_ == "nan" for e_ in r_.get("ent", []) for x_ in e_):
